@@ -1011,9 +1011,6 @@ func encFloors() []string {
 	fl := []string{"pool_pairs_exhaustive", "random_pairs", "tuples", "tuples_decided_by_later_component", "tuples_decided_by_docid", "tuples_decided_by_null", "key_roundtrips", "roundtrips",
 		"equal_value_pairs", "index_served_queries", "nontrivial_pairs", "order_served_by_index"}
 	for _, k := range encKinds {
-		if k.name == "bytes" {
-			continue // not encodable on the current tree (known finding encode/bytes/value-not-encoded): counted, not a floor
-		}
 		for _, d := range []string{"asc", "desc"} {
 			fl = append(fl, "cell/"+k.name+"/"+d+"/null")
 			switch k.name {
